@@ -1,7 +1,7 @@
 from props import rc, TRUST
 
 PROP = dict(
-    rule='rapidcheck cases {api in schedule-burst / async<T> / AsyncTask<T>; T in {int,double,heap string,vector<int>,lifetime-instrumented '
+    rule='rapidcheck single steps AND (in a forked child, so that process-level state is part of the case) histories of 1..3 steps {api in schedule-burst / async<T> / AsyncTask<T>; T in {int,double,heap string,vector<int>,lifetime-instrumented '
          'Tracked}; burst 1..2000 (thorough ..10^5; 20000 on the OpenMP backend which starts a thread per task); closures own a heap vector and '
          'a shared_ptr token; task duration 0..200us; delay inside the result type default constructor 0..20ms; caller delay 0..200us; caller '
          'action in get / poll finished() then get / wait then get / get twice / destroy immediately / destroy after finished / drop the future; '
@@ -11,14 +11,20 @@ PROP = dict(
          'silent. non-trivial = threaded backend with >= 2 threads and (burst >= 2 or heap/instrumented result type or destroy-before-finish); '
          'distinct by hash of the case x backend',
     floor=dict(quick=800, thorough=6000),
-    parallel=2,
+    parallel=4,
     confirm_replays=6,
     assumptions=TRUST + ['"eventually" is decided with a 60 s wall-clock budget per wait; a timeout must reproduce in isolated replays to count',
                          'schedules inside the runtimes are sampled'],
-    bins=[rc('C02_tasks_tbb', 'harness/C02_tasks.cpp', 'tbb-asan', hang_s=400, quick=dict(scale=3)),
-          rc('C02_tasks_omp', 'harness/C02_tasks.cpp', 'omp-asan', hang_s=400),
-          rc('C02_tasks_internal', 'harness/C02_tasks.cpp', 'internal-asan', hang_s=400, quick=dict(scale=3)),
-          rc('C02_wake_internal_o2', 'harness/C02_tasks.cpp', 'internal-o2', san='', opt='-O2 -g', flags='-DC02_BIN=\\"C02_wake_internal_o2\\"',
-             env={'PBT_ONLY': 'wakeup_rounds'}, hang_s=400, quick=dict(scale=2), thorough=dict(scale=20, seeds=4)),
-          rc('C02_tasks_debug', 'harness/C02_tasks.cpp', 'debug-asan', hang_s=400, quick=dict(scale=2))],
+    bins=[rc('C02_tasks_tbb', 'harness/C02_tasks.cpp', 'tbb-asan', hang_s=400, quick=dict(scale=1.5)),
+          rc('C02_tasks_omp', 'harness/C02_tasks.cpp', 'omp-asan', hang_s=400, quick=dict(scale=0.5), thorough=dict(scale=4, seeds=3)),
+          rc('C02_tasks_internal', 'harness/C02_tasks.cpp', 'internal-asan', hang_s=400, quick=dict(scale=1.5)),
+          rc('C02_tasks_debug', 'harness/C02_tasks.cpp', 'debug-asan', hang_s=400, quick=dict(scale=1.5)),
+          # forked-child properties (configuration histories, wake-up rounds): separate binaries whose own process never
+          # touches the tasking system
+          rc('C02_hist_tbb', 'harness/C02_tasks.cpp', 'tbb-asan', hang_s=400, flags='-DC02_FORKED -DC02_BIN=\\"C02_hist_tbb\\"'),
+          rc('C02_hist_omp', 'harness/C02_tasks.cpp', 'omp-asan', hang_s=400, flags='-DC02_FORKED -DC02_BIN=\\"C02_hist_omp\\"', quick=dict(scale=0.4), thorough=dict(scale=3, seeds=3)),
+          rc('C02_hist_internal', 'harness/C02_tasks.cpp', 'internal-asan', hang_s=400, flags='-DC02_FORKED -DC02_BIN=\\"C02_hist_internal\\"'),
+          rc('C02_hist_debug', 'harness/C02_tasks.cpp', 'debug-asan', hang_s=400, flags='-DC02_FORKED -DC02_BIN=\\"C02_hist_debug\\"', quick=dict(scale=0.5)),
+          rc('C02_wake_internal_o2', 'harness/C02_tasks.cpp', 'internal-o2', san='', opt='-O2 -g', flags='-DC02_FORKED -DC02_BIN=\\"C02_wake_internal_o2\\"',
+             env={'PBT_ONLY': 'wakeup_rounds'}, hang_s=400, quick=dict(scale=2), thorough=dict(scale=20, seeds=4))],
 )
